@@ -353,6 +353,9 @@ def shard_main(argv):
     mod = importlib.import_module(f"vf.props.{prop.lower()}")
     rec = Rec(prop, spec)
     rc = 0
+    import faulthandler
+
+    faulthandler.dump_traceback_later(float(os.environ.get("VF_STACK_AFTER", "240")), repeat=False, file=sys.stderr)
     try:
         if "replay" in spec:
             rec.strict = False
@@ -368,6 +371,35 @@ def shard_main(argv):
     sys.stdout.flush()
     sys.stderr.flush()
     os._exit(rc)
+
+
+class CaseTimeout(BaseException):
+    """Raised inside the observed code by the per-case alarm (BaseException: not swallowed by
+    'except Exception' of the code under observation)."""
+
+
+class time_limit:
+    """with time_limit(30): ...   raises CaseTimeout in the main thread after the given seconds."""
+
+    def __init__(self, seconds):
+        self.seconds = seconds
+
+    def __enter__(self):
+        import signal
+
+        def handler(signum, frame):
+            raise CaseTimeout(f"case exceeded {self.seconds}s")
+
+        self._old = signal.signal(signal.SIGALRM, handler)
+        signal.setitimer(signal.ITIMER_REAL, self.seconds)
+        return self
+
+    def __exit__(self, *a):
+        import signal
+
+        signal.setitimer(signal.ITIMER_REAL, 0)
+        signal.signal(signal.SIGALRM, self._old)
+        return False
 
 
 def rng_for(spec, *extra):
